@@ -552,6 +552,16 @@ class Scalar(Parametrized):
             else Scalar(self.array[0].conjugate(),
                         name=self._name, is_mixed=self.is_mixed)
 
+    def subs(self, *args):
+        data = rsubs(self.data, *args)
+        return Scalar(data, name=self._name, is_mixed=self.is_mixed)
+
+    def lambdify(self, *symbols, **kwargs):
+        from sympy import lambdify
+        data = lambdify(symbols, self.data, dict(kwargs, modules=Tensor.np))
+        return lambda *xs: Scalar(
+            data(*xs), name=self._name, is_mixed=self.is_mixed)
+
 
 class MixedScalar(Scalar):
     """ Mixed scalar, i.e. where the Born rule has already been applied. """
@@ -572,6 +582,8 @@ class Sqrt(Scalar):
     def dagger(self):
         return self if self._dagger is None\
             else Sqrt(self.data.conjugate())
+
+    subs, lambdify = Parametrized.subs, Parametrized.lambdify
 
 
 SWAP = Swap(qubit, qubit)
